@@ -19,7 +19,21 @@ func execOrder(vec J, out *Writer) {
 	}
 	dscs := []control.DSC{}
 	parsed := true
+	reuse, _ := vec["reuse"].(bool)
+	var scratch control.DSC // reuse: every .dsc is decoded into this ONE variable and copied out (a Decoder loop)
 	for i, t := range L(vec["dscs"]) {
+		if reuse {
+			// (a field that a document does not carry keeps its old value - that is the decoder's contract, so the
+			// optional dependency fields are cleared by hand; the LIST fields every document carries, Binary above all,
+			// are what the decoder itself has to start afresh)
+			scratch.BuildDepends, scratch.BuildDependsArch, scratch.BuildDependsIndep = dependency.Dependency{}, dependency.Dependency{}, dependency.Dependency{}
+			if err := control.Unmarshal(&scratch, bufioReader(S(t))); err != nil {
+				parsed = false
+				break
+			}
+			dscs = append(dscs, scratch)
+			continue
+		}
 		d, err := control.ParseDsc(bufioReader(S(t)), fmt.Sprintf("/tmp/s%d.dsc", i))
 		if err != nil {
 			parsed = false
@@ -27,7 +41,11 @@ func execOrder(vec J, out *Writer) {
 		}
 		dscs = append(dscs, *d)
 	}
-	arch, _ := dependency.ParseArch("amd64")
+	target := "amd64"
+	if tg, ok := vec["target"].(string); ok && tg != "" {
+		target = tg
+	}
+	arch, _ := dependency.ParseArch(target)
 	runs := []interface{}{}
 	panicked := false
 	if parsed {
